@@ -9,7 +9,7 @@ from ..pool import core_arrays
 ASSUME = [
     'the state handed to the sampler is normalised and right-orthonormal (built from the integer cores by ortho_right and division by the norm); measured sites given as a sorted list',
     'uniform variates are the dyadic rationals a/1024 chosen by the specification; configurations in which a variate equals a threshold exactly are discarded by the model (state constraint)',
-    'convergence clause: 20000 samples from a seeded generator, total-variation distance to the exact marginal below 0.05',
+    'convergence clause: 20011 samples from a seeded generator, total-variation distance to the exact marginal below 0.05',
     'trusted base: TLC evaluation of spec/Sampling.tla (exact integer marginals; ChainRule / PrefixPossible invariants)',
 ]
 RULE = ('TLC runs the site-by-site inverse-CDF machine of spec/Sampling.tla for every qubit count, rank profile, fill, '
@@ -28,7 +28,7 @@ def convergence(qc, t, meas, case, n, force=False):
         return []
     dist = np.array(case['dist'], dtype=float) / case['total']
     np.random.seed(12345 + n)
-    N = 20000
+    N = 20011
     samples, probs = qc.sampling(t, meas, N)
     emp = np.zeros(len(dist))
     for r, p in zip(np.asarray(samples).reshape(len(samples), -1), probs):
@@ -152,6 +152,31 @@ def replay(case):
             pass
         except Exception as e:
             out.append(('sampling:mixed-dtype:exception:%s' % type(e).__name__, repr(e)))
+    # other sample counts, predicted from the same variates (the inverse-CDF map acts on each row of variates separately):
+    # one sample (the first row), and 1029 copies of the variate matrix (12348 or 24696 samples: not a round number, more
+    # than any block size a sampler would work in)
+    if not out:
+        for label, uu, rr in (('one sample', u[:1], rows[:1]), ('%d samples' % (1029 * len(rows)), np.tile(u, (1029, 1)), rows * 1029)):
+            wr = sorted(set(rr))
+            wf = [rr.count(r) / len(rr) for r in wr]
+
+            def fake2(*shape, _uu=uu):
+                if tuple(shape) != _uu.shape:
+                    raise _Unbound()
+                return _uu.copy()
+            try:
+                with mock.patch('numpy.random.rand', side_effect=fake2):
+                    s3, p3 = qc.sampling(t, meas, len(rr))
+                rows3 = [tuple(int(x) for x in r) for r in np.asarray(s3).reshape(len(s3), -1)]
+                if rows3 != wr or np.max(np.abs(np.asarray(p3) - np.array(wf))) > 1e-12:
+                    out.append(('sampling:sample-count', '%s (the variates of the base case%s): bit strings %r frequencies %r, predicted %r %r '
+                                '(n=%d, meas=%r)' % (label, '' if len(rr) == 1 else ', repeated', rows3[:6], list(p3)[:6], wr[:6], wf[:6], n, meas)))
+                    break
+            except _Unbound:
+                pass
+            except Exception as e:
+                out.append(('sampling:sample-count:exception:%s' % type(e).__name__, '%s: %r' % (label, e)))
+                break
     out += convergence(qc, t, meas, case, n)
     return out
 
